@@ -58,7 +58,24 @@ inline Bytes letterFrame(int letter, Ep& e, Rng& r)
             if (m.payload.empty())
                 m.payload.push_back(1);
             return buildFrame(e.ver, e.dev, e.mt, e.stream, e.seq++, {m});
-        case L_X: m.flags |= wire::CF_ERROR; return buildFrame(e.ver, e.dev, e.mt, e.stream, e.seq++, {m});
+        case L_X:
+        {
+            // an invalid first message in one of its forms: error flag, payload type 0, a declared length that overruns the frame,
+            // or nothing but zero bytes behind the frame header (a padding-only frame: sixteen and more zero bytes read as an
+            // all-zero message header)
+            switch (r.below(4))
+            {
+                case 0: m.flags |= wire::CF_ERROR; return buildFrame(e.ver, e.dev, e.mt, e.stream, e.seq++, {m});
+                case 1: m.ptype = 0; return buildFrame(e.ver, e.dev, e.mt, e.stream, e.seq++, {m});
+                case 2:
+                {
+                    Bytes f = buildFrame(e.ver, e.dev, e.mt, e.stream, e.seq++, {m});
+                    wire::set16(f.data() + wire::kCmpHeader + 14, static_cast<uint16_t>(m.payload.size() + 1 + r.below(300)));
+                    return f;
+                }
+                default: return buildFrame(e.ver, e.dev, e.mt, e.stream, e.seq++, {}, Bytes(r.pick<size_t>({1, 15, 16, 17, 38, 56}), 0x00));
+            }
+        }
         case L_MV: m.flags |= wire::SEG_MID; return buildFrame(static_cast<uint8_t>(e.ver + 1), e.dev, e.mt, e.stream, e.seq++, {m});
         case L_MSEQ:
         {
@@ -66,7 +83,16 @@ inline Bytes letterFrame(int letter, Ep& e, Rng& r)
             e.seq = static_cast<uint16_t>(e.seq + 1);  // one counter value skipped
             return buildFrame(e.ver, e.dev, e.mt, e.stream, e.seq++, {m});
         }
-        case L_T: return genTecmpFrame(r);
+        case L_T:
+            if (r.chance(1, 3))
+            {
+                // the beginning of a TECMP frame (first byte 0, fewer than the 28 header bytes) whose bytes 2..3 and 5 name THIS
+                // endpoint when misread as a capture-module frame header; the rest looks like a small valid message
+                Bytes f = buildFrame(0, e.dev, e.mt, e.stream, e.seq, {m});
+                f.resize(std::min<size_t>(f.size(), r.range(8, 27)));
+                return f;
+            }
+            return genTecmpFrame(r);
         default: return r.bytes(r.below(8));
     }
 }
@@ -475,6 +501,17 @@ inline void randomCase(Ctx& c, long idx)
             wire::set16(g.data() + 2, pickDevice(r));
             H.push_back(g);
             il = mix64(il, 1004);
+        }
+        else if (w < 46 && f.size() >= 8)
+        {
+            // the beginning of a TECMP frame (first byte 0, 8..27 bytes: fewer than the TECMP header) that would name this very
+            // endpoint if it were misread as a capture-module frame; it belongs to no endpoint's traffic
+            Bytes g = f;
+            g[0] = 0;
+            g.resize(std::min<size_t>(g.size(), r.range(8, 27)));
+            H.push_back(g);
+            il = mix64(il, 1005);
+            c.count("truncated_tecmp_frames_aimed_at_a_live_endpoint");
         }
         il = mix64(il, static_cast<uint64_t>(ep));
         H.push_back(f);
